@@ -18,6 +18,7 @@ CR(l) == [l EXCEPT !.cr = TRUE]
 Voc == <<
   Other("foo"), L(Other("b.r"), "  ", "  "), L(Other("(?:x|y)+"), "\t", ""), CR(Other("foo")),
   Other("[A-Z]x") @@ [uc |-> TRUE],
+  L(Other("\fq"), " ", ""),        \* the entry itself starts with white space that is not indentation (form feed)
   Other("##! comment"), L(Other("##! ##!> include looks-like"), " ", ""), Other("##!=>"), L(Other("##!=< x"), "    ", " "), Other("##!=> x"),
   BStart("assemble", ""), [L(BStart("assemble", ""), "   ", " ") EXCEPT !.sp1 = ""],
   [BStart("cmdline", "unix") EXCEPT !.sp1 = "  ", !.sp2 = "   "], CR(BStart("cmdline", "windows")),
